@@ -497,11 +497,13 @@ theorem WF_addRoute {c : Cfg K P} {self : Nat} {t : KTable K P} (h : WF c self t
   rw [if_neg hp]
   have hself : self ∉ e.path := by simpa using hp
   dsimp only
-  generalize hk : c.keyOf (c.store e.pay) = k
-  generalize he' : ({ e with pay := c.store e.pay } : Entry P) = e'
-  have hpay : e'.pay = c.store e.pay := by rw [← he']
-  have hpath : e'.path = e.path := by rw [← he']
-  have hkey : c.keyOf e'.pay = k := by rw [hpay, hk]
+  have hpay0 : (stored c e).pay = c.store e.pay := rfl
+  have hpath0 : (stored c e).path = e.path := rfl
+  generalize stored c e = e' at hpay0 hpath0 ⊢
+  have hpay : e'.pay = c.store e.pay := hpay0
+  have hpath : e'.path = e.path := hpath0
+  generalize hk : c.keyOf e'.pay = k
+  have hkey : c.keyOf e'.pay = k := hk
   cases hr : replG c.byHop e' (get t k) with
   | none =>
     dsimp only
